@@ -32,6 +32,8 @@ pub struct EdgeInfo {
     pub card: Card,
     /// statically known to never carry an item (`source_iter` of an empty collection)
     pub empty: bool,
+    /// produced directly by a `handoff()` / `singleton()` / `optional()` pseudo operator
+    pub hoff: bool,
 }
 
 impl EdgeInfo {
@@ -79,7 +81,7 @@ fn analyze_opt(p: &Prog, closed: bool) -> Result<Analysis, String> {
     // pre-seed the outputs of cycle-closing defer_ticks
     for (i, node) in p.nodes.iter().enumerate() {
         if let Op::DeferTick { back: Some(t), .. } = &node.op {
-            outs[i] = Some(vec![EdgeInfo { ty: t.clone(), ord: Ord_::Bag, card: Card::Many, empty: false }]);
+            outs[i] = Some(vec![EdgeInfo { ty: t.clone(), ord: Ord_::Bag, card: Card::Many, empty: false, hoff: false }]);
         }
     }
     for (i, node) in p.nodes.iter().enumerate() {
@@ -181,13 +183,54 @@ fn analyze_opt(p: &Prog, closed: bool) -> Result<Analysis, String> {
             }
         }
     }
+    // reference holders: the model evaluates nodes in index order, so the index order has to be a
+    // legal schedule: holders of one target in non-decreasing access-group order, every pipe
+    // consumer of the target after its last holder; the front end's own rules: either all holders
+    // of a target carry a group or none does, and a `#mut` holder is alone in its group.
+    for (t, tn) in p.nodes.iter().enumerate() {
+        if !matches!(tn.op, Op::Handoff | Op::Singleton | Op::Optional) {
+            continue;
+        }
+        let holders: Vec<(usize, Option<u32>, bool)> = p
+            .nodes
+            .iter()
+            .enumerate()
+            .filter_map(|(i, n)| match &n.op {
+                Op::RefMap { target, group, f } if *target == t => Some((i, *group, f.is_write())),
+                _ => None,
+            })
+            .collect();
+        if holders.is_empty() {
+            continue;
+        }
+        let any_group = holders.iter().any(|h| h.1.is_some());
+        if any_group && holders.iter().any(|h| h.1.is_none()) {
+            return Err("mixed grouped / ungrouped references to one target".into());
+        }
+        for w in holders.windows(2) {
+            if w[0].1 > w[1].1 {
+                return Err("reference holders are not in access-group order".into());
+            }
+        }
+        for h in &holders {
+            if h.2 && holders.iter().filter(|o| o.1 == h.1).count() > 1 {
+                return Err("a #mut holder must be alone in its access group".into());
+            }
+        }
+        let last = holders.iter().map(|h| h.0).max().unwrap();
+        for (i, n) in p.nodes.iter().enumerate() {
+            if n.ins.iter().any(|e| e.node == t) && i < last {
+                return Err("pipe consumer of a referenced handoff precedes a holder in index order".into());
+            }
+        }
+    }
     Ok(Analysis { outs })
 }
 
 pub fn node_out(p: &Prog, idx: usize, op: &Op, ins: &[EdgeInfo]) -> Result<Vec<EdgeInfo>, String> {
     let in_tys: Vec<Ty> = ins.iter().map(|e| e.ty.clone()).collect();
     let tys = out_types(op, &in_tys, &p.sources)?;
-    let mk = |ty: &Ty, ord: Ord_, card: Card| EdgeInfo { ty: ty.clone(), ord, card, empty: false }.norm();
+    let mk = |ty: &Ty, ord: Ord_, card: Card| EdgeInfo { ty: ty.clone(), ord, card, empty: false, hoff: false }.norm();
     let seq = |k: usize| -> Result<(), String> {
         if ins[k].ord == Ord_::Seq {
             Ok(())
@@ -200,7 +243,11 @@ pub fn node_out(p: &Prog, idx: usize, op: &Op, ins: &[EdgeInfo]) -> Result<Vec<E
     };
     use Card::*;
     use Ord_::*;
-    let out = match op {
+    if matches!(op, Op::Handoff | Op::Singleton | Op::Optional) && ins[0].hoff {
+        // "Adjacent handoff/singleton operators are not allowed." (front-end diagnostic)
+        return Err("adjacent handoffs".into());
+    }
+    let mut out = match op {
         Op::SrcStream { .. } => vec![mk(&tys[0], Seq, Many)],
         Op::SrcIter { items, .. } => {
             let mut e = mk(&tys[0], Seq, Many);
@@ -222,14 +269,14 @@ pub fn node_out(p: &Prog, idx: usize, op: &Op, ins: &[EdgeInfo]) -> Result<Vec<E
             }
             vec![mk(&tys[0], Seq, ins[0].card)]
         }
-        Op::RefMap { target, f } => {
+        Op::RefMap { target, f, .. } => {
             if *target >= idx {
                 return Err("bad reference target".into());
             }
             let t = &p.nodes[*target].op;
             let ok = match f {
-                RefFn::PairWith | RefFn::Add => matches!(t, Op::Singleton),
-                RefFn::Len | RefFn::SumBuf => matches!(t, Op::Handoff),
+                RefFn::PairWith | RefFn::Add | RefFn::MulAdd(_) => matches!(t, Op::Singleton),
+                RefFn::Len | RefFn::SumBuf | RefFn::Push | RefFn::Retain => matches!(t, Op::Handoff),
             };
             if !ok {
                 return Err("reference target has the wrong kind".into());
@@ -358,6 +405,9 @@ pub fn node_out(p: &Prog, idx: usize, op: &Op, ins: &[EdgeInfo]) -> Result<Vec<E
         ],
         Op::ForEach { .. } | Op::Null => vec![],
     };
+    if matches!(op, Op::Handoff | Op::Singleton | Op::Optional) {
+        out[0].hoff = true;
+    }
     Ok(out)
 }
 
